@@ -169,14 +169,36 @@ open Rdest Rdest.Wire Rdest.Swarm
 def propPred (prop : String) (mode : String) (tr : Trace) : Option String :=
   let expected : Option Bytes := if mode.startsWith "out:" then parseHex (mode.drop 4).toString else none
   match prop with
+  | "C10" => if P10 Rdest.Gen.PIECE_BLOCK_SIZE tr then none else some "P10-request-tiling"
   | "C09" => if P09 Rdest.Gen.PIECE_BLOCK_SIZE tr then none else some "P09-upload-discipline"
   | "C08" => if P08 ourInfoHash ourId expected tr then none else some "P08-handshake-gate"
   | "C20" => if P20 Rdest.Gen.KEEP_ALIVE_LIMIT 0 tr then none else some "P20-keepalive-discipline"
   | "C06" => if P06 tr then none else some "T5-receive-error-does-not-end-the-task"
   | _ => none
 
+/-- The tiling a piece of length `len` must be requested in (T1 of C10), as an executable predicate. -/
+def tilingOk (B len : Nat) (blocks : List (Nat × Nat)) : Bool :=
+  let rec go : List (Nat × Nat) → Nat → Bool
+    | [], pos => pos == len
+    | (b, l) :: rest, pos => b == pos && decide (0 < l) && decide (l ≤ B) && (rest.isEmpty || l == B) && go rest (pos + l)
+  go blocks 0
+
 def handVerdict (prop : String) (args res : List String) : Verdict :=
   match args, res with
+  | ["left", lenS], [out] =>
+    match lenS.toNat? with
+    | none => vBad "left"
+    | some len =>
+      if out = "P" then vProp "left-panics" "left" else
+      let blocks : List (Nat × Nat) := if out = "-" then [] else
+        (out.splitOn ",").filterMap fun t => match t.splitOn ":" with
+          | [b, l] => match b.toNat?, l.toNat? with | some b, some l => some (b, l) | _, _ => none
+          | _ => none
+      let model := leftImpl len
+      let tag := if len % Rdest.Gen.PIECE_BLOCK_SIZE = 0 then "left-multiple" else "left-remainder"
+      if !tilingOk Rdest.Gen.PIECE_BLOCK_SIZE len blocks then vProp "T1-blocks-do-not-tile-the-piece" tag
+      else if blocks ≠ model then vDiff "left" (toString model) tag
+      else vOk tag
   | ["hand", mode, nps, script], [outs] =>
     if outs = "P" ∨ (outs.splitOn "PANIC").length > 1 then vProp "task-panicked" "hand" else
     match nps.toNat?, initState mode (nps.toNat?.getD 0), (script.splitOn ";").mapM parseEv with
@@ -194,12 +216,14 @@ def handVerdict (prop : String) (args res : List String) : Verdict :=
         | some implOuts =>
           let implTrace : Trace := (ins.zip implOuts).map fun (i, (o, e)) => (i, o, e)
           let modelTrace := runTrace Sha1.sha1 st0 ins
-          let tag := s!"hand-{if mode = "in" then "in" else "out"}-ev{min (ins.length / 10) 4}"
+          let nsaved := (implOuts.map (fun (o, _) => (savedObs o).length)).sum
+          let tag := s!"hand-{if mode = "in" then "in" else "out"}-ev{min (ins.length / 10) 4}-saved{min nsaved 3}"
           -- property oracle on the implementation's own trace
           match propPred prop mode implTrace with
           | some clause => vProp clause tag
           | none =>
             if modelTrace.length ≠ ins.length then vBad s!"script does not fit the model at event {modelTrace.length}" else
+            if (propPred prop mode modelTrace).isSome then vDiff "model-trace-violates-predicate" "?" tag else
             let modelToks := modelTrace.map fun (_, o, e) => eventTok o e
             match (modelToks.zip outl).zipIdx.find? (fun ((m, i), _) => m ≠ i) with
             | some ((m, _), k) => vDiff s!"event{k}" m tag
